@@ -52,6 +52,18 @@ def same_locus(f, g, base, timeout_ms=10000):
     return True
 
 
+def card_locus(s, P, ctx):
+    """implicit function whose zero set is the locus of an (elementary) surface card; one-sheet cones: the cone."""
+    params = [n.N(v) for v in s.params]
+    mn = s.mn
+    if mn[0] == 'K' and len(params) in (3, 5):
+        params = params[:-1]
+    cases = ref.surface_cases(mn, params, P, ctx)
+    if cases is None:
+        return None
+    return cases[0][1]
+
+
 def used_by_converted(deck, rf, sid):
     """flagged surface referenced (directly or through #n) by a level-0 cell"""
     def surfs_of(e, seen):
@@ -83,17 +95,30 @@ def bc_problems(deck, t4, base, P, ctx):
     matched = {s.id: [] for s in flagged}
     for kind, sid in t4.bcs:
         if sid not in t4.surfs:
-            pbs.append(('bc-undefined', 'boundary condition designates surface %d which is not in the written geometry' % sid, sid))
+            # explained by the known defect (MCNP number written verbatim) only if that number really is not a
+            # surface of the output for a legitimate reason: an equal LOWER-numbered card absorbed it in the
+            # de-duplication, or its locus is not written at all (surface unused / its cells pruned)
+            why = 'unexplained'
+            card = next((s_ for s_ in deck.surfs if s_.id == sid), None)
+            if card is not None:
+                f = card_locus(card, P, ctx)
+                if f is not None:
+                    lower = any(s2.id < sid and card_locus(s2, P, ctx) is not None and same_locus(card_locus(s2, P, ctx), f, base)
+                                for s2 in deck.surfs if s2.id != sid and s2.mn not in dk.MACRO)
+                    written = any(same_locus(t4sem.surf_at(ts, P, ctx), f, base) for ts in t4.surfs.values())
+                    if lower or not written:
+                        why = 'verbatim-id'
+            pbs.append(('bc-undefined', 'boundary condition designates surface %d which is not in the written geometry (%s)' % (sid, why), (sid, why)))
             continue
         g = t4sem.surf_at(t4.surfs[sid], P, ctx)
         hit = False
         for s in flagged:
             if KIND[s.bc] != kind:
                 continue
-            cases = ref.surface_cases(s.mn, [n.N(v) for v in s.params], P, ctx)
-            if cases is None:
+            f = card_locus(s, P, ctx)
+            if f is None:
                 continue
-            if same_locus(cases[0][1], g, base):
+            if same_locus(f, g, base):
                 matched[s.id].append(sid)
                 hit = True
         if not hit:
@@ -114,9 +139,11 @@ def classify(pbs):
     """'bc-verbatim-id' when every problem is explained by entries carrying the MCNP surface number although
     that number is not a SURF of the written file (merged by de-duplication, unused, or pruned with its cell):
     dangling entries, and flagged cards left without an entry because theirs is one of the dangling ones."""
-    dangling = {p[2] for p in pbs if p[0] == 'bc-undefined'}
+    dangling = {p[2][0] for p in pbs if p[0] == 'bc-undefined'}
     for p in pbs:
         if p[0] == 'bc-undefined':
+            if p[2][1] != 'verbatim-id':
+                return 'bc-dangling-unexplained'
             continue
         if p[0] == 'bc-count' and p[2][1] == 0 and p[2][0] in dangling:
             continue
@@ -137,7 +164,7 @@ def make(task):
     sd, nsurf, ncells, variant = task
     rnd = random.Random(sd)
     deck, pre = gen.partition_deck(rnd, nsurf=nsurf, ncells=ncells, max_leaves=3,
-                                   allow=('px', 'py', 'so', 'cz', 'dup', 'dup'), mats=False)
+                                   allow=('px', 'py', 'so', 'cz', 'dup', 'dup', 'kz1'), mats=False)
     # flags: at least one; prefer a surface that has a duplicate before it
     flags = 0
     for s in deck.surfs:
@@ -151,6 +178,8 @@ def make(task):
     if variant == 'macro':
         deck.surfs.append(dk.Surf(len(deck.surfs) + 1, 'rpp', [Fr(-9), Fr(9), Fr(-9), Fr(9), Fr(-9), Fr(9)], bc='*'))
         deck.cells[0].expr = ('and', deck.cells[0].expr, ('s', -len(deck.surfs)))
+    if rnd.random() < 0.5:
+        rnd.shuffle(deck.surfs)          # cards need not be listed in increasing number
     flg = {'skip_deduplication': variant == 'nodedup'}
     return deck, pre, flg, variant
 
